@@ -5,7 +5,9 @@ import (
 	"crypto/x509"
 	"encoding/json"
 	"fmt"
+	"github.com/opencontainers/go-digest"
 	"os"
+	"path/filepath"
 	"runtime/debug"
 
 	"github.com/notaryproject/notation-go"
@@ -30,6 +32,11 @@ type JailSpec struct {
 	Level     string `json:"level"`
 	TrustFile string `json:"trust_file"` // DER of the certificate placed in ca:x
 	DescJSON  string `json:"desc_json"`
+	// verify-from-config: the verifier is built by the constructors that read the user's directories
+	ConfigDir  string `json:"config_dir"`
+	LibexecDir string `json:"libexec_dir"`
+	CacheDir   string `json:"cache_dir"`
+	Kind       string `json:"kind"` // oci | oci-default | blob
 }
 
 // JailResult is what the operation returned.
@@ -114,6 +121,54 @@ func jailOp(args []string) {
 				fatal("%v", err)
 			}
 			_, verr := v.Verify(ctx, desc, sig, notation.VerifierVerifyOptions{ArtifactReference: "r.io/a@" + desc.Digest.String(), SignatureMediaType: sp.Format})
+			if verr != nil {
+				res.Err = verr.Error()
+				return
+			}
+			res.OK = true
+		case "verify-from-config":
+			sig, err := os.ReadFile(sp.SigFile)
+			if err != nil {
+				fatal("%v", err)
+			}
+			der, err := os.ReadFile(sp.TrustFile)
+			if err != nil {
+				fatal("%v", err)
+			}
+			var desc ocispec.Descriptor
+			json.Unmarshal([]byte(sp.DescJSON), &desc)
+			dir.UserConfigDir, dir.UserLibexecDir, dir.UserCacheDir = sp.ConfigDir, sp.LibexecDir, sp.CacheDir
+			sv := trustpolicy.SignatureVerification{VerificationLevel: sp.Level, Override: map[trustpolicy.ValidationType]trustpolicy.ValidationAction{trustpolicy.TypeRevocation: trustpolicy.ActionSkip}}
+			os.MkdirAll(filepath.Join(sp.ConfigDir, "truststore", "x509", "ca", "x"), 0o755)
+			os.WriteFile(filepath.Join(sp.ConfigDir, "truststore", "x509", "ca", "x", "anchor.crt"), der, 0o644)
+			od, _ := json.Marshal(lib.OCIPolicy(sv, []string{"ca:x"}, []string{"*"}))
+			bd, _ := json.Marshal(lib.BlobPolicy(sv, []string{"ca:x"}, []string{"*"}))
+			os.WriteFile(filepath.Join(sp.ConfigDir, dir.PathOCITrustPolicy), od, 0o600)
+			os.WriteFile(filepath.Join(sp.ConfigDir, dir.PathBlobTrustPolicy), bd, 0o600)
+			var verr error
+			switch sp.Kind {
+			case "blob":
+				v, err := verifier.NewBlobVerifierFromConfig()
+				if err != nil {
+					res.Err = "constructor: " + err.Error()
+					return
+				}
+				_, verr = v.VerifyBlob(ctx, func(digest.Algorithm) (ocispec.Descriptor, error) { return desc, nil }, sig, notation.BlobVerifierVerifyOptions{SignatureMediaType: sp.Format})
+			case "oci-default":
+				v, err := verifier.NewFromConfig()
+				if err != nil {
+					res.Err = "constructor: " + err.Error()
+					return
+				}
+				_, verr = v.Verify(ctx, desc, sig, notation.VerifierVerifyOptions{ArtifactReference: "r.io/a@" + desc.Digest.String(), SignatureMediaType: sp.Format})
+			default:
+				v, err := verifier.NewOCIVerifierFromConfig()
+				if err != nil {
+					res.Err = "constructor: " + err.Error()
+					return
+				}
+				_, verr = v.Verify(ctx, desc, sig, notation.VerifierVerifyOptions{ArtifactReference: "r.io/a@" + desc.Digest.String(), SignatureMediaType: sp.Format})
+			}
 			if verr != nil {
 				res.Err = verr.Error()
 				return
